@@ -336,6 +336,7 @@ impl Check for C13 {
             Part { name: "enum", kind: PartKind::Enum { units: 256 } },
             Part { name: "long", kind: PartKind::Random { cases: tier.pick(600_000, 6_000_000), main: 200, ops: 0, oplen: 0, sched: 0 } },
             Part { name: "pairs", kind: PartKind::Random { cases: tier.pick(120_000, 1_200_000), main: 60, ops: 0, oplen: 0, sched: 20 } },
+            Part { name: "bb-deps", kind: PartKind::Random { cases: tier.pick(64, 1000), main: 20, ops: 0, oplen: 0, sched: 0 } },
         ]
     }
     fn run_unit(&mut self, _part: &str, u: u64, env: &mut Env) -> CaseOut {
@@ -343,6 +344,7 @@ impl Check for C13 {
     }
     fn run_random(&mut self, part: &str, case: &Case, env: &mut Env) -> CaseOut {
         match part {
+            "bb-deps" => crate::bb::deps::run_deps_case(case, env, "C13"),
             "long" => self.random_long(case),
             _ => self.pairs(case, env),
         }
